@@ -28,10 +28,12 @@ ASSUMPTIONS = [
 ]
 TRUSTED = ["CPython asyncio (real, virtual clock)", "pydantic TaskiqResult construction (real)", "vt.sym explorer", "recording stubs"]
 BOUNDS = {"messages": "1 (all configurations); 2 concurrent (2 outcomes quick / all 6 thorough); 3 concurrent (thorough, reduced)", "timer ticks": "<= 6", "timeout label": "5 s"}
-REQUIRED_COVERS = ["timeout_zero", "raise_system_exit", "return", "raise_exc", "raise_base", "no_result", "cancelled", "timeout", "sync", "async", "backend_failed", "timeout_label_unused"]
+REQUIRED_COVERS = ["inmemory_backend", "timeout_zero", "raise_system_exit", "return", "raise_exc", "raise_base", "no_result", "cancelled", "timeout", "sync", "async", "backend_failed", "timeout_label_unused"]
 
 
-def cases(tier: str) -> List[Any]:
+def cases(tier: str, hname: str = "harness") -> List[Any]:
+    if hname == "inmemory":
+        return [{"max_stored": k} for k in (1, 2, 3, 100, -1)]
     out: List[Any] = []
     for ack in _cb.ACKS if tier == "thorough" else ("when_saved", "when_received"):
         for target in ("async", "sync"):
@@ -115,3 +117,53 @@ def harness(c: sym.Ctx, case: Dict[str, Any]) -> None:
 
 def budget(tier: str) -> Dict[str, Any]:
     return {"max_paths": 400000, "budget_s": 600 if tier == "quick" else 3000}
+
+
+def inmemory(c: sym.Ctx, case: Dict[str, Any]) -> None:
+    """the bundled in-memory result backend, driven by the real receiver: the latest result is stored under its task id
+    for every retention limit (including the smallest ones)"""
+    from taskiq import InMemoryBroker
+
+    from vt.props._recv import Lab
+
+    c.cover("inmemory_backend")
+    lab = Lab(c)
+    out: Dict[str, Any] = {}
+    try:
+        broker = InMemoryBroker(max_stored_results=case["max_stored"], await_inplace=True)
+        outcomes = [c.choose(["return", "raise"], f"o{k}") for k in range(3)]
+
+        async def target(i: int) -> Any:
+            if outcomes[i] == "raise":
+                raise ValueError(f"boom{i}")
+            return ("value", i)
+
+        task = broker.register_task(target, task_name="t")
+
+        async def main() -> None:
+            for i in range(3):
+                await task.kicker().with_task_id(f"id{i}").kiq(i)
+                out[i] = (await broker.result_backend.is_result_ready(f"id{i}"),)
+                if out[i][0]:
+                    out[i] += (await broker.result_backend.get_result(f"id{i}"),)
+
+        mt = lab.loop.create_task(main())
+        lab.drive(mt)
+        exc = mt.exception() if mt.done() else None
+        try:
+            broker.executor.shutdown(wait=False)
+        except Exception:  # noqa: BLE001
+            pass
+    finally:
+        lab.close()
+    c.check(exc is None, "inmemory_run_completes", exc=repr(exc))
+    for i in range(3):
+        got = out.get(i, (False,))
+        c.check(bool(got[0]), "set_result_count", msg=i, stored=got[0], limit=case["max_stored"], backend="InmemoryResultBackend")
+        if got[0]:
+            res = got[1]
+            ok = (res.is_err and "boom%d" % i in str(res.error)) if outcomes[i] == "raise" else (not res.is_err and tuple(res.return_value) == ("value", i))
+            c.check(ok, "result_of_return" if outcomes[i] == "return" else "result_of_failure", msg=i, res=res)
+
+
+HARNESSES = {"harness": harness, "inmemory": inmemory}
